@@ -22,6 +22,8 @@ namespace Nomt.BitOps
 /-- all elements are bytes -/
 def Bytes (l : List Nat) : Prop := ∀ b ∈ l, b < 256
 
+instance (l : List Nat) : Decidable (Bytes l) := by unfold Bytes; exact inferInstance
+
 /-- `u64::MAX` -/
 def M64 : Nat := 2 ^ 64 - 1
 
